@@ -19,6 +19,7 @@ type Clause struct {
 	Expr    *Expr
 	Src     string
 	Defines bool // definitional postcondition: assumed at call sites, not checked on the body
+	NoCover bool // antecedent legitimately unreachable on the current tree (label suffix '!')
 }
 
 type FuncContract struct {
@@ -82,6 +83,8 @@ type Contracts struct {
 	Ghosts  map[string]*GhostDecl
 	Lemmas  []*Lemma
 	Immutable map[string]string
+	StorageIfaces  map[string]bool
+	StorageLookups map[string]bool
 	Errors  []string
 	curPkg  string
 }
@@ -472,7 +475,7 @@ func (p *parser) primary() *Expr {
 
 // ---------- file parsing ----------
 
-var declKeywords = map[string]bool{"immutable": true, "func": true, "extern": true, "interface": true, "loop": true, "spec": true, "ghost": true, "axiom": true, "lemma": true}
+var declKeywords = map[string]bool{"storage-interfaces": true, "storage-lookups": true, "immutable": true, "func": true, "extern": true, "interface": true, "loop": true, "spec": true, "ghost": true, "axiom": true, "lemma": true}
 var clauseKeywords = map[string]bool{"requires": true, "ensures": true, "defines": true, "modifies": true, "pure": true, "effectful": true, "trusted": true, "invariant": true, "noinline": true, "params": true, "unframed": true}
 
 // ParseContractText parses the //@ lines of one file.
@@ -532,12 +535,12 @@ func (C *Contracts) ParseContractText(origin, text string) {
 					return "", s
 				}
 				lab := strings.TrimSpace(s[:i])
-				if lab != "" && !strings.ContainsAny(lab, " ()[]\"=<>!&|") {
+				if lab != "" && !strings.ContainsAny(lab, " ()[]\"=<>&|") {
 					return lab, strings.TrimSpace(s[i+1:])
 				}
 				return "", s
 			}
-			if !(unicode.IsLetter(rune(c)) || unicode.IsDigit(rune(c)) || c == '-' || c == '_') {
+			if !(unicode.IsLetter(rune(c)) || unicode.IsDigit(rune(c)) || c == '-' || c == '_' || c == '!') {
 				return "", s
 			}
 		}
@@ -584,6 +587,24 @@ func (C *Contracts) ParseContractText(origin, text string) {
 			}
 			curL = &LoopSpec{Key: strings.TrimSpace(k[:i]), Ordinal: n}
 			C.Loops[fmt.Sprintf("%s#%d", curL.Key, n)] = curL
+		case "storage-interfaces":
+			// interfaces of the pluggable storage: a failing call of one of their methods sets the ghost flag storageFailed
+			curF, curL = nil, nil
+			if C.StorageIfaces == nil {
+				C.StorageIfaces = map[string]bool{}
+			}
+			for _, f := range strings.Fields(el.rest) {
+				C.StorageIfaces[f] = true
+			}
+		case "storage-lookups":
+			// storage methods whose error is a documented "not found" answer, not a failure
+			curF, curL = nil, nil
+			if C.StorageLookups == nil {
+				C.StorageLookups = map[string]bool{}
+			}
+			for _, f := range strings.Fields(el.rest) {
+				C.StorageLookups[f] = true
+			}
 		case "immutable":
 			// immutable <Method>...: getters (by method name) whose result does not change during a request
 			curF, curL = nil, nil
@@ -615,7 +636,9 @@ func (C *Contracts) ParseContractText(origin, text string) {
 				errf(el.no, "%v in %q", err, rest)
 				continue
 			}
-			cl := Clause{Label: lab, Expr: e, Src: rest, UsesCallres: strings.Contains(rest, "callres(") || strings.Contains(rest, "callarg(") || strings.Contains(rest, "called(")}
+			noCover := strings.HasSuffix(lab, "!")
+			lab = strings.TrimSuffix(lab, "!")
+			cl := Clause{NoCover: noCover, Label: lab, Expr: e, Src: rest, UsesCallres: strings.Contains(rest, "callres(") || strings.Contains(rest, "callarg(") || strings.Contains(rest, "called(")}
 			switch {
 			case el.kw == "invariant" && curL != nil:
 				if cl.Label == "" {
